@@ -72,10 +72,12 @@ def plan(tier):
                 "partial copies up to 300 symbols. ukkonen: one object reused for patterns of different lengths, unit "
                 "cost and cost tables with entries 0..3 (also non-zero diagonal). dist: all pairs over {a,b} up to "
                 "length 3/4, lengths around the SIMD lanes up to 129 (300 thorough), bounds {0,d-1,d,d+1,max-1,max,"
-                "max+1,u32::MAX}, Hamming up to 3000 symbols",
-        "bounds": {"mc": "Ukkonen machine: Sym={0,1}, |p|<=3/4, |t|<=5/6, k<=4/5, 4/9 cost tables; Myers block machine: "
-                         "W=2 |p|<=5/6 |t|<=4/6, W=3 |p|<=7 |t|<=5 (thorough), W=4 |p|<=4 (single word), wildcard+"
-                         "ambiguity W=2 |p|<=4/5 |t|<=3/5; every k in -1..|p|+1",
+                "max+1,u32::MAX}, Hamming up to 3000 symbols. distinct_nontrivial counts runs (distinct by construction: "
+                "own case number and seed stream) in which some threshold selected a non-empty proper subset of the end "
+                "positions (myers, ukkonen) resp. 0 < levenshtein < max length (dist), judged from the recorded answers",
+        "bounds": {"mc": "Ukkonen machine: Sym={0,1}, |p|<=3/4, |t|<=5, k<=3/5, 3/9 cost tables; Myers block machine: "
+                         "W=2 |p|<=5/6 |t|<=4/5, W=3 |p|<=7 |t|<=4 (thorough), W=4 |p|<=4 |t|<=4 (single word), wildcard+"
+                         "ambiguity W=2 |p|<=4 |t|<=3/4; k in {-1,0,1,2,|p|} (quick W=2) / every k in -1..|p|+1",
                    "impl": "|p|<=200, |t|<=300, k<=1000 or unbounded, bytes 0..255"},
         "assumptions": ["TLC evaluates the TLA+ definitions (Col/LastRow/Hits/Lev/Hamming) faithfully; "
                         "ndJsonDeserialize reads the recorded values faithfully",
@@ -97,7 +99,7 @@ MANIFEST = {
             "recorded find_all_end / distance / find_best_end / hamming / levenshtein / simd / bounded result of the "
             "real code (exhaustive small, word-size and block boundaries for u8..u64, k up to unbounded, ambiguity and "
             "wildcard tables, object reuse) must equal the definition",
-    "note": "bounded: MC over W<=4 with |p|<=7, |t|<=6; implementation side |p|<=200, |t|<=300; TLC's evaluator and the "
+    "note": "bounded: MC over W<=4 with |p|<=7, |t|<=5; implementation side |p|<=200, |t|<=300; TLC's evaluator and the "
             "JSON projection of the harness are trusted; found and fixed: long::Myers distance()/find_best_end() "
             "overflow on multi-block patterns (2cc6187)",
     "ref": "sec. 5 C09",
